@@ -191,8 +191,7 @@ def stepLine (d : DSt) (ws : List String) : DSt × String :=
           ({ d with caches := cs }, "ok " ++ fmtCoords (sortCoords v))
         else (d, "err Key")
     | ["mask", c, r, ic] =>
-      -- `get_neighborhood_mask`: the coordinates where the mask is True; numpy raises IndexError
-      -- when the neighbourhood is empty
+      -- `get_neighborhood_mask`: the coordinates where the mask is True
       match parseCoord c, r.toInt?, parseBool ic with
       | some c, some r, some ic =>
         if !sp.isGrid then (d, "err Attr")
@@ -200,7 +199,7 @@ def stepLine (d : DSt) (ws : List String) : DSt × String :=
           if r < 1 then (d, "err Value")
           else
             let (v, cs) := getNbhd (nbOf sp) r.toNat ic c d.caches
-            ({ d with caches := cs }, if v.isEmpty then "err Index" else "ok " ++ fmtCoords (sortCoords v))
+            ({ d with caches := cs }, "ok " ++ fmtCoords (sortCoords v))
         else (d, "err Key")
       | _, _, _ => (d, "bad-op")
     | _ =>
